@@ -245,13 +245,31 @@ def padJ (t : Res (List DRow)) (ri : Nat) (accs : List (Option Acc)) : Json :=
     | none => Json.null
   | .error _ => Json.null
 
+/-- Phase 6: the observed row iterated element by element: `takeN n` (`pull n stream`) for n = 0 .. length+1, of the row and of `row.feats`;
+`after` = the same after an abandoned partial iteration (`stepTake`) -/
+def errJ : Option Err → Json
+  | some e => Json.str (errName e)
+  | none => Json.null
+
+def takeJ (p : List Val × Option Err) : Json := obj [("vals", ofList valJ p.1), ("err", errJ p.2)]
+
+def walkOf (r : DRow) : Json := ofList (fun n => takeJ (r.takeN n)) (List.range (r.stream.length + 2))
+
+def walkDJ (t : Res (List DRow)) (ri : Nat) : Json :=
+  match t with
+  | .ok rs => match rs[ri]? with
+    | some r => obj [("row", walkOf r), ("after", walkOf (stepTake r 1).2),
+                     ("feats", match r.feats with | .ok f => walkOf f | .error _ => Json.null)]
+    | none => Json.null
+  | .error _ => Json.null
+
 /-- the answer for one table from what `session` produced for it -/
 def answerOf (stages : List Stage) (p : Parsed) (out : TableOut) : Json :=
   match p.table, out with
   | .dense pre bases, .dense t =>
     -- hypothesis of `first_row_irrelevant`: every row looks like the first one at every stage
     (answer t (eagerTableD (pre ++ stages) bases) p.ri p.accs obsD eagerObsD runD errD eagerErrD).setObjVal! "uniform" (Json.bool (uniformRun (pre ++ stages) (bases.map baseD)))
-      |>.setObjVal! "probe" (probeDJ t p.ri) |>.setObjVal! "pad" (padJ t p.ri p.accs)
+      |>.setObjVal! "probe" (probeDJ t p.ri) |>.setObjVal! "pad" (padJ t p.ri p.accs) |>.setObjVal! "walk" (walkDJ t p.ri)
   | .sparse pre bases, .sparse t =>
     -- hypotheses of the sparse theorems: no stage addresses a hidden raw key of a header-mapped base
     let safe := bases.all (fun b => leakSafe (!(baseS b).leak.isEmpty) (pre ++ stages))
